@@ -1182,6 +1182,22 @@ func (s *Sched) TaskDone(name string) bool {
 	return t == nil || t.state == stDone
 }
 
+// BlockedOutside lists the tasks that, at a quiescent point, are neither parked at a yield point
+// nor finished: they are blocked in an operation the scheduler does not model (a channel send
+// nobody will receive, say), after having passed the named site.
+func (s *Sched) BlockedOutside(siteSubstr string) []string {
+	s.mu.Lock()
+	defer s.mu.Unlock()
+	var out []string
+	for _, t := range s.tasks {
+		if t.state == stRunning && strings.Contains(t.site, siteSubstr) {
+			out = append(out, t.Name+" after "+t.site)
+		}
+	}
+	sort.Strings(out)
+	return out
+}
+
 // TaskReleases: how many times the task has been given the processor so far.
 func (s *Sched) TaskReleases(name string) int {
 	s.mu.Lock()
